@@ -279,7 +279,7 @@ def main(argv):
             sigs.add(s)
         disjoint += int(r.get("distinct_disjoint", 0))
         merge_obs(obs, r.get("obs", {}))
-        if r.get("sample") is not None and len(samples) < 5:
+        if r.get("sample") is not None:
             samples.append(r["sample"])
         for v in r["violations"]:
             case = by_id.get(r["case_id"])
@@ -289,6 +289,9 @@ def main(argv):
                 kf_hits[kid] += 1
                 continue
             violations.append((case, v))
+    if len(samples) > 6:   # a spread over the whole run, not just the first cases
+        step = len(samples) / 6.0
+        samples = [samples[int(i * step)] for i in range(6)]
     if not samples:
         samples = [c for c in cases[:3]]
     gates = mod.gates(obs, tier) if hasattr(mod, "gates") else {}
